@@ -310,6 +310,16 @@ def rule_r4(facts, col):
                 problems.append("eof() too large for the path search")
             elif bad_ret:
                 problems.append("a non-false result is reachable although %s.eof() is false" % f)
+        # ... and with EVERY input's eof() true the result is true (an eof() that can never say yes keeps a finished block -
+        # and with it the graph - alive forever)
+        never = []
+
+        def seen_all(bb, v, never=never):
+            if body.term(bb)["k"] == "return" and v.get(0) is not True:
+                never.append(bb)
+        r, edges = flag_search(body, [0], call_results={cbb: True for cbb in called.values()}, on_state=seen_all)
+        if edges is not None and never:
+            problems.append("with every input at end-of-stream the result is not (always) true")
         if problems:
             col.bad("C04.R4", key, body.where(), "; ".join(sorted(set(problems))), {"inputs": ins})
         else:
@@ -395,6 +405,19 @@ def _rv_ops(rv):
 def _op_local(o):
     p = o.get("c") or o.get("m")
     return p["l"] if p is not None else None
+
+
+def rule_r8(facts, col):
+    """the provided (default) BlockEOF::eof is the constant false: a block that does not define end-of-stream is never retired by it"""
+    for b in facts.bodies:
+        if b.q == "block::BlockEOF::eof" and b.kind in ("traitdecl", "provided", "trait"):
+            key = "block::BlockEOF::eof:default"
+            vals = [peel(e, through_try=False) for bb, si, e in assigns_to_return(b)]
+            if vals and all(is_const(v, False) for v in vals):
+                col.ok("C04.R8", key, b.where(), "default eof() returns false")
+            else:
+                col.bad("C04.R8", key, b.where(), "the default BlockEOF::eof() can return something other than false: every block relying on "
+                        "it is declared finished at its first wait", {})
 
 
 def rule_r7(facts, col):
@@ -535,6 +558,8 @@ def run(ctx):
     rule_r3(facts, ctx)
     rule_r4(facts, ctx)
     rule_r6(facts, ctx, cg)
+    rule_r8(facts, ctx)
+    ctx.floor("C04.R8", 1, "provided BlockEOF::eof")
     rule_r7(facts, ctx)
     ctx.floor("C04.R7", 3, "amount < need in ReadStream::wait_for_read, WriteStream::wait_for_write, NCReadStream::wait")
     from . import c05
